@@ -11,7 +11,8 @@
  "matrix": {"SHA_PART": [0, 1, 2, 3]},
  "loop_contracts": false,
  "backend": "kissat",
- "timeout": 900,
+ "tier": "thorough",
+ "timeout": 3000, "thorough_timeout": 3000,
  "assumptions": ["SHA256RNDS2, SHA256MSG1, SHA256MSG2 modelled from the Intel SDM (models/x86_sha.c); PSHUFB, PALIGNR, PSHUFD, PUNPCKL/HQDQ, PSRLDQ (models/x86_sse2.c)",
                  "specification: spec/sha256_spec.h (FIPS 180-4 6.2.2), run by the harness; 17 cut-point lemmas (assert, then assume) split the equivalence into four-round steps; the 4 matrix instances assert a quarter of the cut points each (see contracts/c03_sha_ghost.h)",
                  "no loops in the function"]
